@@ -41,6 +41,24 @@ func cleanupScratch() {
 	}
 }
 
+// sweepStaleScratch removes scratch directories left behind by c17 driver processes that no longer exist
+// (a driver that was killed cannot run its deferred cleanup).
+func sweepStaleScratch() {
+	ents, err := os.ReadDir("/verif/.scratch")
+	if err != nil {
+		return
+	}
+	for _, e := range ents {
+		pid, ok := strings.CutPrefix(e.Name(), "c17-")
+		if !ok {
+			continue
+		}
+		if _, perr := os.Stat("/proc/" + pid); os.IsNotExist(perr) {
+			_ = os.RemoveAll(filepath.Join("/verif/.scratch", e.Name()))
+		}
+	}
+}
+
 // faultScript expands a relative fault description into a delivery script over n chunks
 // (same grammar as buildScript).
 func faultScript(fault string, n, p, q int) string {
